@@ -514,4 +514,187 @@ theorem hist_step {cfg : Config} {s : St} {st : List (Nat × Announced)} {last :
   | switchOut pid tid t => exact hok.elim
   | sched pid tid t km ip chain => exact hok.elim
 
+/-! ### queues and buffers stay sorted when MMAP2 and SAMPLE records arrive in time order -/
+
+def MonoU (us : List USample) : Prop := us.Pairwise (fun a b => a.tmono ≤ b.tmono)
+
+structure HSort (s : St) (T : Nat) : Prop where
+  q : ∀ pid, SortedQ (pobs s.procs pid).mapq ∧ ∀ o ∈ (pobs s.procs pid).mapq, o.1 ≤ T
+  u : ∀ pid, MonoU (pobs s.procs pid).samples ∧ ∀ x ∈ (pobs s.procs pid).samples, x.tmono ≤ T
+  parked : ∀ b ∈ s.parked, SortedQ b.2.1 ∧ MonoU b.1
+
+theorem HSort.mono {s : St} {T T' : Nat} (h : HSort s T) (hle : T ≤ T') : HSort s T' :=
+  ⟨fun pid => ⟨(h.q pid).1, fun o ho => Nat.le_trans ((h.q pid).2 o ho) hle⟩,
+   fun pid => ⟨(h.u pid).1, fun x hx => Nat.le_trans ((h.u pid).2 x hx) hle⟩, h.parked⟩
+
+theorem HSort.same {s s' : St} {T : Nat} (h : HSort s T) (hobs : ∀ a, pobs s'.procs a = pobs s.procs a)
+    (hp : s'.parked = s.parked) : HSort s' T :=
+  ⟨fun pid => by rw [hobs pid]; exact h.q pid, fun pid => by rw [hobs pid]; exact h.u pid, by rw [hp]; exact h.parked⟩
+
+theorem mapOps_time (cfg : Config) (addr len pgoff : Nat) (path : String) (t : Nat) :
+    ∀ o ∈ mapOps cfg addr len pgoff path t, o.1 = t := by
+  intro o ho
+  unfold mapOps at ho
+  split at ho
+  · simp only [List.mem_singleton] at ho; rw [ho]
+  · cases ho
+
+theorem mapOps_sorted (cfg : Config) (addr len pgoff : Nat) (path : String) (t : Nat) :
+    SortedQ (mapOps cfg addr len pgoff path t) := by
+  unfold mapOps SortedQ
+  split
+  · exact List.pairwise_singleton _ _
+  · exact List.Pairwise.nil
+
+theorem HSort.empty_q (T : Nat) : SortedQ PObs.empty.mapq ∧ ∀ o ∈ PObs.empty.mapq, o.1 ≤ T :=
+  ⟨List.Pairwise.nil, fun o ho => by cases ho⟩
+
+theorem HSort.empty_u (T : Nat) : MonoU PObs.empty.samples ∧ ∀ x ∈ PObs.empty.samples, x.tmono ≤ T :=
+  ⟨List.Pairwise.nil, fun o ho => by cases ho⟩
+
+/-- after `Processes::remove` of `pid` -/
+theorem HSort.remove {s s' : St} {T : Nat} {pid : Nat} (h : HSort s T)
+    (hobs : ∀ a, pobs s'.procs a = upd (pobs s.procs) pid PObs.empty a)
+    (hp : s'.parked = s.parked ++ park (pobs s.procs pid) pid) : HSort s' T := by
+  refine ⟨fun a => ?_, fun a => ?_, ?_⟩
+  · rw [hobs a]; unfold upd; split
+    · exact HSort.empty_q T
+    · exact h.q a
+  · rw [hobs a]; unfold upd; split
+    · exact HSort.empty_u T
+    · exact h.u a
+  · intro b hb
+    rw [hp] at hb
+    rcases List.mem_append.mp hb with hb | hb
+    · exact h.parked b hb
+    · unfold park at hb
+      split at hb
+      · cases hb
+      · simp only [List.mem_singleton] at hb
+        rw [hb]
+        exact ⟨(h.q pid).1, (h.u pid).1⟩
+
+/-- after a record that touches the thread triple of (pid, tid) only -/
+theorem HSort.setThr {s s' : St} {T : Nat} {pid tid : Nat} {q : TQ} (h : HSort s T)
+    (hobs : ∀ a, pobs s'.procs a = upd (pobs s.procs) pid ((pobs s.procs pid).setThr tid q) a)
+    (hp : s'.parked = s.parked) : HSort s' T := by
+  refine ⟨fun a => ?_, fun a => ?_, by rw [hp]; exact h.parked⟩
+  · rw [hobs a]; unfold upd; split
+    · next e => exact h.q pid
+    · exact h.q a
+  · rw [hobs a]; unfold upd; split
+    · next e => exact h.u pid
+    · exact h.u a
+
+theorem sort_step {cfg : Config} {s : St} {st : List (Nat × Announced)} {last : Last} {l : Life.S} {T : Nat}
+    (h : HInv cfg s st last l) (hs : HSort s T) (r : Rec) (post : List Rec) (hf : LifeL.forkOk l r)
+    (hok : recOk r) (ho : orderedFrom T (r :: post) = true) :
+    ∃ T', HSort (step s r) T' ∧ orderedFrom T' post = true := by
+  have hinv := h.inv
+  have hr := h.reuse
+  cases r with
+  | sample pid tid t km period ip chain =>
+    by_cases h0 : tid = 0
+    · have hstep : step s (.sample pid tid t km period ip chain) = s := by rw [h0]; simp [step]
+      rw [hstep]
+      refine ⟨T, hs, ?_⟩
+      simpa [orderedFrom, queuedTime, h0] using ho
+    · simp only [orderedFrom, queuedTime, h0, if_false, Bool.and_eq_true, decide_eq_true_eq] at ho
+      obtain ⟨o1, o2, o3⟩ := obs_sample hinv pid tid t km period ip chain h0 (h.noff pid tid)
+      refine ⟨t, ?_, ho.2⟩
+      split at o3
+      · exact (hs.same o3 o1).mono ho.1
+      · obtain ⟨u, q', u1, u2, u3, u4, u5, u6, q1, q2, o3⟩ := o3
+        refine ⟨fun a => ?_, fun a => ?_, by rw [o1]; exact hs.parked⟩
+        · rw [o3 a]; unfold upd; split
+          · exact ((hs.mono ho.1).q pid)
+          · exact ((hs.mono ho.1).q a)
+        · rw [o3 a]; unfold upd; split
+          · show MonoU ((pobs s.procs pid).samples ++ [u]) ∧ ∀ x ∈ (pobs s.procs pid).samples ++ [u], x.tmono ≤ t
+            refine ⟨?_, ?_⟩
+            · unfold MonoU
+              rw [List.pairwise_append]
+              refine ⟨(hs.u pid).1, List.pairwise_singleton _ _, ?_⟩
+              intro a ha b hb
+              simp only [List.mem_singleton] at hb
+              rw [hb, u3]
+              exact Nat.le_trans ((hs.u pid).2 a ha) ho.1
+            · intro x hx
+              rcases List.mem_append.mp hx with hx | hx
+              · exact Nat.le_trans ((hs.u pid).2 x hx) ho.1
+              · simp only [List.mem_singleton] at hx
+                rw [hx, u3]; exact Nat.le_refl _
+          · exact ((hs.mono ho.1).u a)
+  | fork pid tid ppid ptid t =>
+    obtain ⟨o1, o2, _, _⟩ := obs_fork hinv hr pid tid ppid ptid t
+    refine ⟨T, ?_, by simpa [orderedFrom, queuedTime] using ho⟩
+    by_cases hpp : pid ≠ ppid
+    · simp only [if_pos hpp] at o1
+      refine ⟨fun a => ?_, fun a => ?_, by rw [o2]; exact hs.parked⟩
+      · rw [o1 a]; unfold upd; split
+        · exact hs.q ppid
+        · exact hs.q a
+      · rw [o1 a]; unfold upd; split
+        · exact hs.u pid
+        · exact hs.u a
+    · simp only [if_neg hpp] at o1
+      exact hs.same o1 o2
+  | exit pid tid t =>
+    obtain ⟨o1, o2, _, _⟩ := obs_exit hinv hr pid tid t
+    refine ⟨T, ?_, by simpa [orderedFrom, queuedTime] using ho⟩
+    by_cases hpt : pid = tid
+    · simp only [if_pos hpt] at o1 o2
+      exact hs.remove o1 o2
+    · simp only [if_neg hpt] at o1 o2
+      exact hs.setThr o1 o2
+  | comm pid tid name isExec t =>
+    obtain ⟨o1, o2, _, _⟩ := obs_comm hinv hr pid tid name isExec t
+    refine ⟨T, ?_, by simpa [orderedFrom, queuedTime] using ho⟩
+    cases isExec with
+    | true =>
+      have hpt : pid = tid := hf rfl
+      simp only [if_true, if_pos hpt, hpt, decide_true, Bool.and_self] at o1 o2
+      subst hpt
+      exact hs.remove o1 o2
+    | false =>
+      simp only [Bool.false_eq_true, if_false, Bool.false_and] at o1 o2
+      exact hs.same o1 o2
+  | mmap2 pid tid addr len pgoff exec path t =>
+    obtain ⟨o1, o2, _, _⟩ := obs_mmap2 hinv pid tid addr len pgoff exec path t
+    cases exec with
+    | false =>
+      simp only [Bool.false_and, Bool.false_eq_true, if_false] at o1
+      exact ⟨T, hs.same o1 o2, by simpa [orderedFrom, queuedTime] using ho⟩
+    | true =>
+      simp only [orderedFrom, queuedTime, Bool.and_eq_true, decide_eq_true_eq] at ho
+      refine ⟨t, ?_, ho.2⟩
+      cases hsp : specialPath path with
+      | true =>
+        simp only [hsp, Bool.not_true, Bool.and_false, Bool.false_eq_true, if_false] at o1
+        exact (hs.same o1 o2).mono ho.1
+      | false =>
+        simp only [hsp, Bool.not_false, Bool.and_self, if_true] at o1
+        refine ⟨fun a => ?_, fun a => ?_, by rw [o2]; exact hs.parked⟩
+        · rw [o1 a]; unfold upd; split
+          · show SortedQ ((pobs s.procs pid).mapq ++ mapOps s.cfg addr len pgoff path t) ∧
+              ∀ o ∈ (pobs s.procs pid).mapq ++ mapOps s.cfg addr len pgoff path t, o.1 ≤ t
+            refine ⟨?_, ?_⟩
+            · unfold SortedQ
+              rw [List.pairwise_append]
+              refine ⟨(hs.q pid).1, mapOps_sorted _ _ _ _ _ _, ?_⟩
+              intro a ha b hb
+              rw [mapOps_time _ _ _ _ _ _ b hb]
+              exact Nat.le_trans ((hs.q pid).2 a ha) ho.1
+            · intro o ho'
+              rcases List.mem_append.mp ho' with ho' | ho'
+              · exact Nat.le_trans ((hs.q pid).2 o ho') ho.1
+              · rw [mapOps_time _ _ _ _ _ _ o ho']; exact Nat.le_refl _
+          · exact ((hs.mono ho.1).q a)
+        · rw [o1 a]; unfold upd; split
+          · exact ((hs.mono ho.1).u pid)
+          · exact ((hs.mono ho.1).u a)
+  | switchIn pid tid t => exact hok.elim
+  | switchOut pid tid t => exact hok.elim
+  | sched pid tid t km ip chain => exact hok.elim
+
 end Conv
